@@ -8,6 +8,7 @@ import (
 	"go/parser"
 	"go/token"
 	"math/rand"
+	"reflect"
 	"regexp"
 	"sort"
 	"strconv"
@@ -75,6 +76,31 @@ type c07Ref struct {
 	name string // unique
 	path string // "" = plain local identifier
 	via  string // qualifier written in the source text ("" for bare)
+	pos  int    // index into c07Positions
+}
+
+// c07Positions: where a reference is written. %[1]s is the reference (Q.Rnnn), %[2]d a unique
+// number. Entries starting with a tab are statements of the function body, the others are
+// top-level declarations.
+var c07Positions = []string{
+	"\t%[1]s()",
+	"type tg%[2]d[T %[1]s] struct{ v T }",
+	"func fg%[2]d[T %[1]s](x T) {}",
+	"type ts%[2]d struct{ f %[1]s }",
+	"type te%[2]d struct{ %[1]s }",
+	"var v%[2]d %[1]s",
+	"\t_ = %[1]s{}",
+	"func fp%[2]d(x *%[1]s, ys ...%[1]s) {}",
+	"type ti%[2]d interface{ %[1]s }",
+	"\tswitch v.(type) {\n\tcase %[1]s:\n\t}",
+	"type ta%[2]d = %[1]s[int]",
+	"func (r %[1]s) m%[2]d() {}",
+	"\tvar _ = map[%[1]s]int{}",
+	"\t_ = %[1]s.M",
+	"type tc%[2]d interface{ ~int | %[1]s }",
+	"\t_ = func() %[1]s { return nil }",
+	"\t_ = v.(%[1]s)",
+	"const k%[2]d = %[1]s + 1",
 }
 
 func c07Names() map[string]string {
@@ -197,6 +223,13 @@ func c07Generate(r *rand.Rand) *c07Config {
 		cfg.refs = append(cfg.refs, c07Ref{name: fmt.Sprintf("R%03d", n), path: path})
 	}
 	r.Shuffle(len(cfg.refs), func(i, j int) { cfg.refs[i], cfg.refs[j] = cfg.refs[j], cfg.refs[i] })
+	// the syntactic position of each reference: half of them calls in a function body, the others
+	// spread over the places where a qualified name can occur
+	for i := range cfg.refs {
+		if r.Intn(2) == 0 {
+			cfg.refs[i].pos = 1 + r.Intn(len(c07Positions)-1)
+		}
+	}
 	// overrides
 	used := map[string]bool{}
 	for _, rf := range cfg.refs {
@@ -257,15 +290,22 @@ func (cfg *c07Config) source() string {
 			sb.WriteString("import " + line(b[0]) + "\n\n")
 		}
 	}
-	sb.WriteString("func f() {\n")
-	for _, rf := range cfg.refs {
-		// every reference is written as a call on a placeholder qualifier; the tree is fixed up afterwards
-		sb.WriteString("\tQ." + rf.name + "()\n")
+	sb.WriteString("func f(v interface{}) {\n")
+	for i, rf := range cfg.refs {
+		// every reference is written with a placeholder qualifier; the tree is fixed up afterwards
+		if t := c07Positions[rf.pos]; strings.HasPrefix(t, "\t") {
+			sb.WriteString(fmt.Sprintf(t, "Q."+rf.name, i) + "\n")
+		}
 	}
 	if cfg.cgoFirst || cfg.shape == "cgo-mixed" {
 		sb.WriteString("\t_ = C.int(1)\n")
 	}
 	sb.WriteString("}\n")
+	for i, rf := range cfg.refs {
+		if t := c07Positions[rf.pos]; !strings.HasPrefix(t, "\t") {
+			sb.WriteString("\n" + fmt.Sprintf(t, "Q."+rf.name, i) + "\n")
+		}
+	}
 	return sb.String()
 }
 
@@ -283,18 +323,43 @@ func (cfg *c07Config) build() (*dst.File, string, error) {
 	for _, rf := range cfg.refs {
 		paths[rf.name] = rf.path
 	}
-	dst.Inspect(f, func(n dst.Node) bool {
-		if ce, ok := n.(*dst.CallExpr); ok {
-			if se, ok := ce.Fun.(*dst.SelectorExpr); ok {
+	// every Q.Rnnn selector, wherever it stands, becomes a path-carrying identifier (the slots are
+	// found by reflection so that this does not depend on the library's own traversal)
+	var fix func(v reflect.Value)
+	fix = func(v reflect.Value) {
+		switch v.Kind() {
+		case reflect.Ptr:
+			if !v.IsNil() && v.Elem().Kind() == reflect.Struct {
+				fix(v.Elem())
+			}
+		case reflect.Interface:
+			if v.IsNil() {
+				return
+			}
+			if se, ok := v.Interface().(*dst.SelectorExpr); ok && v.CanSet() {
 				if x, ok := se.X.(*dst.Ident); ok && x.Name == "Q" {
 					id := &dst.Ident{Name: se.Sel.Name, Path: paths[se.Sel.Name]}
 					id.Decs = dst.IdentDecorations{NodeDecs: se.Decs.NodeDecs}
-					ce.Fun = id
+					v.Set(reflect.ValueOf(id))
+					return
 				}
 			}
+			fix(v.Elem())
+		case reflect.Slice:
+			for i := 0; i < v.Len(); i++ {
+				fix(v.Index(i))
+			}
+		case reflect.Struct:
+			for i := 0; i < v.NumField(); i++ {
+				sf := v.Type().Field(i)
+				if sf.Name == "Obj" || sf.Name == "Scope" || sf.Name == "Decs" || sf.Name == "Imports" || sf.Name == "Unresolved" {
+					continue
+				}
+				fix(v.Field(i))
+			}
 		}
-		return true
-	})
+	}
+	fix(reflect.ValueOf(f))
 	return f, src, nil
 }
 
